@@ -15,7 +15,8 @@ RULE = ("each case = one call of one cvxopt.blas function. stratum 1: consistent
         "optional arguments omitted whenever the documented default reproduces the same call); stratum 2: one "
         "buffer length / offset / ld / dimension / increment / band width / matrix shape moved one below, at, one "
         "above an exactly tight configuration; stratum 3: one type conflict or illegal flag / inc / ld / offset / "
-        "scalar. distinct = function x stratum x typecodes x verdict x mutation kind x flags x "
+        "scalar; stratum 4: an exactly consistent call with ONE operand buffer one element short and slack on all others "
+        "(visits every (function, flags, operand) length test). distinct = function x stratum x typecodes x verdict x mutation kind x flags x "
         "(negative increment, omitted dimension, zero dimension)")
 ASSUMPTIONS = [
     "numpy (own bundled OpenBLAS) is the reference arithmetic; integer geometry is done with Python ints",
@@ -37,7 +38,7 @@ FUNCS = ["asum", "axpy", "copy", "dot", "dotu", "nrm2", "iamax", "scal", "swap",
          "ger", "geru", "syr", "her", "syr2", "her2",
          "gemm", "symm", "hemm", "syrk", "herk", "syr2k", "her2k", "trmm", "trsm"]
 REQUIRED_COUNTERS = (["accept." + f for f in FUNCS] + ["reject." + f for f in FUNCS] +
-                     ["stratum.1", "stratum.2", "stratum.3", "omitted-dim", "negative-inc", "zero-dim",
+                     ["stratum.1", "stratum.2", "stratum.3", "stratum.4", "omitted-dim", "negative-inc", "zero-dim",
                       "tc.d", "tc.z"])
 
 # |got - ref| <= TOLF * 8 (K+2) u * (|alpha||A||x| + |beta||y|)   (DESIGN.md Appendix C).  The evidence prints
@@ -232,7 +233,7 @@ def run(ctx):
                               {"got": g[:12], "want": w[:12]}))
         return fails, info
 
-    WEIGHTS = [1, 1, 1, 1, 2, 2, 2, 3, 3, 3]     # strata 1:2:3 = 4:3:3
+    WEIGHTS = [1, 1, 1, 1, 2, 2, 2, 3, 3, 3, 4, 4]     # strata 1:2:3:4 = 4:3:3:2
 
     def one(c):
         rng = c.rng
